@@ -22,7 +22,10 @@ def gen_case(rnd, tier: str, i: Any, **over: Any) -> Dict[str, Any]:
     exotic = rnd.random() < 0.25
     for r in range(n_ranks):
         p = gen_sim.random_params(rnd, tier, rank=r, first_step=first_step, avoid_k1=True, n_steps=n_steps, p_zero_launch=rnd.choice([0.0, 0.0, 0.2]),
-                                  nested_driver=rnd.random() < 0.35, exotic_launch=exotic)
+                                  nested_driver=rnd.random() < 0.35, exotic_launch=exotic,
+                                  # known finding K4 (recorded under C03): the call-stack builder behind this analysis loses a host
+                                  # thread that shares its (pid, tid) pair with a device stream; its graphs would only re-report that
+                                  pid_tid_clash=False)
         p.update(over)
         tr, truth = gen_sim.gen_trace_with_truth(rnd, **p)
         files[f"rank{r}.json"] = tr
